@@ -626,7 +626,7 @@ def c03(prop, tier, seed):
 
 @check("C20")
 def c20(prop, tier, seed):
-    return core_check(prop, tier, seed, ["fdev", "srca"], ["fdev", "srca", "life"],
+    return core_check(prop, tier, seed, ["fdev", "srca", "tick", "memfd"], ["fdev", "srca", "tick", "memfd", "life", "tb", "btmo"],
                       "Focus: descriptor ledger: library descriptors (poll handle, pipes, timer descriptors) all closed in clean states, user descriptors closed only through auto-close and exactly once.", Dq=5, Dt=7)
 
 
